@@ -23,7 +23,7 @@ CLAIMED = {
    note="bounded: number of definitions and edges; trusted: TLC, hook verif_snapshot (cross-checked against the public walk), vdrive",
    ref="DESIGN.md 6 C07"),
  "C02": dict(
-   text="TLC generates, for every document of a stratified universe of the faithful fragment (Families.tla), the candidate instances (Instances.tla) and classifies them with the TLA+ draft-07 semantics (Schema.tla, cross-checked on every instance against Python jsonschema); the documents are run through the real typify, the generated code is compiled and executed on every instance, and the recorded deser events are validated by TLC against ContractSerde!C02 (valid => accepted)",
+   text="TLC generates, for every document of a stratified universe of the faithful fragment (Families.tla), the candidate instances (Instances.tla) and classifies them with the TLA+ draft-07 semantics (Schema.tla, cross-checked on every instance against Python jsonschema); the documents are run through the real typify, the generated code is compiled and executed on every instance, and the recorded deser events are validated by TLC against ContractSerde!C02 (valid => accepted); the implementation model spec/Exclusive.tla of the anyOf exclusivity analysis, which delimits one recorded finding, is model-checked (MC_Excl) and every one of its states is replayed into the real analysis (hook verif_all_mutually_exclusive) and validated by Trace_Excl",
    note="bounded: the quick universe (134 documents, ~3000 instances); trusted: TLC, Schema.tla (self-checked), rustc, serde, vdrive and the generated-crate support code",
    ref="DESIGN.md 6 C02"),
  "C03": dict(
@@ -108,7 +108,7 @@ m = {
  "hooks": {"guard": "cargo feature `verif-hooks` of typify-impl",
            "enable": "harness crates depend on /repo/typify-impl with features=[\"verif-hooks\"] (path dependency, rebuilt from the working tree by every check)",
            "baseline_off_cmd": "cd /repo && cargo test --workspace --no-fail-fast --offline",
-           "source_commits": ["e1f558d"],
+           "source_commits": ["e1f558d", "efea458"],
            "add_only": True},
  "engines": [
    {"name": "tlc", "path": "bin/tlc.sh", "serves_properties": sorted(CLAIMED),
